@@ -114,6 +114,11 @@ namespace Pistache
             return true;
         }
 
+        size_t room() const
+        {
+            return bytes.size() < maxSize ? maxSize - bytes.size() : 0;
+        }
+
         void reset()
         {
             std::vector<CharT> nbytes;
